@@ -524,7 +524,11 @@ func (n *Node) startResponders() {
 			c.Mu.Unlock()
 			msg.Reply(cli.NewMessage("", types.EventBlocks, res))
 		case marker:
-			msg.Reply(cli.NewMessage("", marker, nil))
+			if ch, ok := msg.Data.(chan struct{}); ok {
+				close(ch)
+			} else {
+				msg.Reply(cli.NewMessage("", marker, nil))
+			}
 		default:
 			atomic.AddInt64(&c.NOther, 1)
 		}
@@ -551,12 +555,26 @@ func (n *Node) startResponders() {
 
 const marker = int64(-424242)
 
-// Barrier returns after every message sent to the blockchain topic before the call has been handled.
+// Barrier returns after every message sent to the blockchain topic before the call has been handled. The queue
+// serves high-priority (synchronous) messages before low-priority (asynchronous) ones, so a marker travels on each
+// lane: first the high one (round trip), then a low one behind every queued EventSyncBlock.
 func (n *Node) Barrier() bool {
 	msg := n.Cli.NewMessage("blockchain", marker, nil)
 	if err := n.Cli.Send(msg, true); err != nil {
 		return false
 	}
-	_, err := n.Cli.WaitTimeout(msg, 60*time.Second)
-	return err == nil
+	if _, err := n.Cli.WaitTimeout(msg, 60*time.Second); err != nil {
+		return false
+	}
+	ch := make(chan struct{})
+	low := n.Cli.NewMessage("blockchain", marker, ch)
+	if err := n.Cli.Send(low, false); err != nil {
+		return false
+	}
+	select {
+	case <-ch:
+		return true
+	case <-time.After(120 * time.Second):
+		return false
+	}
 }
